@@ -67,7 +67,7 @@ def save_load(ob, d, ttm):
     ob.frame()
 
 
-OPS = ['clone', 'detach', 'cpu', 'to_dtype', 'to_none', 'to_device', 'to_both', 'to_positional', 'numpy', 'numpy_of_conj', 'is_cuda']
+OPS = ['clone', 'detach', 'cpu', 'to_dtype', 'to_none', 'to_device', 'to_both', 'to_positional', 'to_complex', 'numpy', 'numpy_of_conj', 'is_cuda']
 
 
 @scenario('C19', 'copies', ['torchtt._tt_base.TT.clone', 'torchtt._tt_base.TT.detach', 'torchtt._tt_base.TT.to', 'torchtt._tt_base.TT.cpu', 'torchtt._tt_base.TT.numpy'],
@@ -75,7 +75,7 @@ OPS = ['clone', 'detach', 'cpu', 'to_dtype', 'to_none', 'to_device', 'to_both', 
           thorough=[dict(op=o, d=d, ttm=t) for o in OPS for d in (1, 2, 3, 4) for t in (False, True)], replay='copies')
 def copies(ob, op, d, ttm):
     ex = ob.ex
-    x = ob.tt('x', d, ttm=ttm, dtype='complex128' if op == 'numpy_of_conj' else None)
+    x = ob.tt('x', d, ttm=ttm, dtype='complex128' if op in ('numpy_of_conj', 'to_complex') else None)
     ob.replay_args = {'x': 'x', 'op': op}
     if op == 'is_cuda':
         r = ex.call(ex.getattr(x, 'is_cuda'), [])
@@ -99,6 +99,8 @@ def copies(ob, op, d, ttm):
         return
     if op == 'to_dtype':
         r = ex.call(ex.getattr(x, 'to'), [], {'dtype': I.DType('float32')})
+    elif op == 'to_complex':
+        r = ex.call(ex.getattr(x, 'to'), [], {'dtype': I.DType('complex64')})      # complex128 -> complex64
     elif op == 'to_none':
         r = ex.call(ex.getattr(x, 'to'), [])
     elif op == 'to_device':
@@ -126,7 +128,7 @@ def copies(ob, op, d, ttm):
     ob.prove('kind', f['is_ttm'] is ttm)
     all_eq(ob, 'N', f['N'], x.N_)
     all_eq(ob, 'R', f['R'], x.R_, 'rank')
-    prove_dtype(ob, r, 'float32' if op in ('to_dtype', 'to_both', 'to_positional') else 'float64')
+    prove_dtype(ob, r, 'float32' if op in ('to_dtype', 'to_both', 'to_positional') else 'complex64' if op == 'to_complex' else 'float64')
     idx = mode_index(ob, r)
     ob.prove_eq('value', val(ob, r, idx), val(ob, x, idx))
     ob.prove('new_object', r is not x)
